@@ -76,12 +76,7 @@ pub fn dead_code_elimination(function: &il::Function) -> Result<il::Function, Er
         .filter(|location| {
             location
                 .instruction()
-                .map(|instruction| {
-                    !instruction
-                        .scalars_written()
-                        .map(|scalars_written| scalars_written.is_empty())
-                        .unwrap_or(false)
-                })
+                .map(|instruction| instruction.is_assign() || instruction.is_load())
                 .unwrap_or(false)
         })
         .filter(|location| !live.contains(&location.clone().into()))
